@@ -82,6 +82,9 @@ pub enum Ev {
     Steps { ctx: u8, op: u16 },
     Params { ctx: u8, op: u16, index: u8 },
     Forged { ctx: u8 },
+    /// `count` instantiations of unknown names in a row (each must fail, and must not
+    /// change what later definitions resolve to)
+    FailStorm { ctx: u8, count: u16 },
     Clear,
     /// write `<file>` under `<root>/resources/`; text None = make it unreadable (`how`)
     WriteResource { root: u8, file: String, text: String },
@@ -249,9 +252,11 @@ pub fn wipe_roots(root: &std::path::Path) {
 
 // ----- generation -------------------------------------------------------------------
 
-const MACRO_NAMES: &[&str] = &["m:a", "m:b", "m:c", "geo:in", "neu:out", "f:x", "f:y", "f:way", "f:way_too", "g:x", "g:last", "plainres", "rec:a"];
+// (the two name pools overlap on purpose: the same name may be registered both as a
+// macro and as an operator; the two registrations are independent of each other)
+const MACRO_NAMES: &[&str] = &["m:a", "m:b", "m:c", "geo:in", "neu:out", "f:x", "f:y", "f:way", "f:way_too", "g:x", "g:last", "plainres", "rec:a", "addone", "shadow", "u:op"];
 const FILE_MACROS: &[(&str, &str)] = &[("f", "x"), ("f", "y"), ("f", "way"), ("f", "way_too"), ("g", "x"), ("g", "last")];
-const OP_NAMES: &[&str] = &["addk", "shadow", "addone", "helmert", "noop", "u:op"];
+const OP_NAMES: &[&str] = &["addk", "shadow", "addone", "helmert", "noop", "u:op", "m:a", "geo:in", "plainres"];
 
 fn gen_step(rng: &mut Rng) -> String {
     let base = match rng.weighted(&[14, 12, 10, 8, 22, 10, 4, 3, 3]) {
@@ -374,7 +379,7 @@ impl Engine for RegSim {
                 "macro invocations carry no arguments (argument passing is C04's subject), so that a macro's value is its body's value",
                 "the sequential cache model is exact: a grid lookup is served from the cache if the name is cached, else from the first root holding the file",
             ],
-            required_probes: &["shadow_builtin_after_creation", "reregistration_after_creation", "foreign_handle", "forged_handle", "file_macro_from_resource_file", "file_macro_from_register", "register_item_at_eof_without_terminator", "register_item_first_in_file", "register_cr_only", "runtime_beats_file", "second_root_used", "broken_file_falls_through", "grid_replaced_while_cached", "clear_then_new_version", "refusing_constructor", "recursive_macro", "op_after_clear_old_handle_alive", "op_from_another_os_thread"],
+            required_probes: &["shadow_builtin_after_creation", "reregistration_after_creation", "foreign_handle", "forged_handle", "file_macro_from_resource_file", "file_macro_from_register", "register_item_at_eof_without_terminator", "register_item_first_in_file", "register_cr_only", "runtime_beats_file", "second_root_used", "broken_file_falls_through", "grid_replaced_while_cached", "clear_then_new_version", "refusing_constructor", "recursive_macro", "op_after_clear_old_handle_alive", "op_from_another_os_thread", "storm_of_failing_instantiations"],
             exhaustive: false,
         }
     }
@@ -418,7 +423,13 @@ impl Engine for RegSim {
                 3 if n_ops > 0 => events.push(Ev::Apply { ctx: rng.below(n_ctx) as u8, op: rng.below(n_ops as usize) as u16, inv: rng.chance(0.4) }),
                 4 if n_ops > 0 => events.push(Ev::Steps { ctx: rng.below(n_ctx) as u8, op: rng.below(n_ops as usize) as u16 }),
                 5 if n_ops > 0 => events.push(Ev::Params { ctx: rng.below(n_ctx) as u8, op: rng.below(n_ops as usize) as u16, index: rng.below(4) as u8 }),
-                6 => events.push(Ev::Forged { ctx }),
+                6 => {
+                    if rng.chance(0.15) {
+                        events.push(Ev::FailStorm { ctx, count: *rng.pick(&[3u16, 40, 130, 260]) });
+                    } else {
+                        events.push(Ev::Forged { ctx });
+                    }
+                }
                 7 => events.push(Ev::Clear),
                 8 => {
                     let root = rng.below(2) as u8;
@@ -571,6 +582,8 @@ impl Engine for RegSim {
         let mut changed_world = false;
         let mut nontrivial = false;
         let mut cleared_since_op = false;
+        // failures seen after many failed instantiations in the same run get their own class
+        let mut stormed = false;
 
         for (k, ev) in plan.events.iter().enumerate() {
             if rec.failed() {
@@ -698,7 +711,7 @@ impl Engine for RegSim {
                         (Err(e), Some(_)) => {
                             rec.violate(
                                 "I-res",
-                                "a definition fails although the documented resolution order resolves it",
+                                if stormed { "a definition fails although the documented resolution order resolves it (after a storm of failing instantiations in the same run)" } else { "a definition fails although the documented resolution order resolves it" },
                                 format!("event {} ctx{} (kind {}) op('{}') -> {}; run-time resources {:?}, user ops {:?}, disk roots {:?}, cache {:?}", k, c, plan.ctxs.get(c).copied().unwrap_or(2), def, e, world.ctxs[c].resources, world.ctxs[c].user_ops, world.roots, world.cache),
                             );
                             break;
@@ -808,6 +821,37 @@ impl Engine for RegSim {
                         }
                     }
                     rec.log("forged handle rejected");
+                }
+                Ev::FailStorm { ctx, count } => {
+                    sig.str("Z");
+                    let c = *ctx as usize % n_ctx;
+                    if *count >= 100 {
+                        rec.probe("storm_of_failing_instantiations");
+                        stormed = true;
+                    }
+                    let r = catch(|| {
+                        let mut unexpected = 0u32;
+                        for i in 0..*count {
+                            let def = if i % 2 == 0 { "nosuchop" } else { "no:such | addone" };
+                            if ctxs[c].get_mut().op(def).is_ok() {
+                                unexpected += 1;
+                            }
+                        }
+                        unexpected
+                    });
+                    match r {
+                        Err(p) => {
+                            rec.violate("I-safe", &format!("op() panics: {}", p), format!("event {}", k));
+                            break;
+                        }
+                        Ok(n) if n > 0 => {
+                            rec.violate("I-res", "an unknown name instantiates", format!("event {}: {} of {} unknown definitions were accepted", k, n, count));
+                            break;
+                        }
+                        Ok(_) => {}
+                    }
+                    changed_world = true;
+                    rec.logf(|| format!("e{} ctx{} {} failing instantiations", k, c, count));
                 }
                 Ev::Clear => {
                     sig.str("C");
